@@ -244,6 +244,8 @@ def run(tier, seed, replay=None):
             cases = [g.Case([replay["sql"]], "replay")]
     else:
         cases += g.systematic(rng)
+        cases += g.confusion(rng)
+        cases += [g.rand_confusion(rng) for _ in range(600 if tier == "quick" else 30000)]
         n_rand, n_soup = (1500, 700) if tier == "quick" else (100000, 40000)
         cases += [g.rand_case(rng) for _ in range(n_rand)]
         cases += [g.soup_case(rng) for _ in range(n_soup)]
@@ -427,6 +429,8 @@ def run(tier, seed, replay=None):
         "positions; 23 comments x 4 positions x 3 statements; 7 CTE prefixes x 7 main statements; statement pairs x 11 separators as one/two "
         "arguments; SQLite variable tokens, blob literals, exotic white space, keyword edge cases; random: 1-3 statements with CTE/comments/"
         "quoting/case/hostile inserts, joined by separators, split per statement or at arbitrary positions into arguments; malformed: fragment "
-        "soup; command lines: 16 option prefixes x 12 argument lists x 8 option suffixes + random. distinct = distinct SQL texts / argument "
+        "soup; delimiter confusion: every quoting style x 25 escape-like fragments (backslash forms, doubled quotes of every style, --, /*, */, $ : @ #, "
+        "backslash before ; and newline) as the end / the whole / the middle of a RAW literal, in comments and bare, followed by a write statement and a "
+        "later quote of the same kind (35 templates) + random members; command lines: 16 option prefixes x 12 argument lists x 8 option suffixes + random. distinct = distinct SQL texts / argument "
         "lists / command lines; non-trivial = classified read-only (SQL) or allowed (command line), i.e. actually executed against the engine")
     return out
